@@ -8,7 +8,7 @@ import (
 
 func init() {
 	register(&Property{ID: "C01", Run: runC01,
-		Explain: "Structural necessary conditions of C01 decided for all inputs and schedules: the local delivery fan-out wiring. (R01.1) publishMessage/publishMessageBatch reach notifySubs for every message and the router's Publish on every non-local path; (R01.2) notifySubs visits every subscription of the topic (no early exit) and attempts the channel send in each iteration not excluded by the subscription's own filter; (R01.3) processLoop dispatches sendMsg to publishMessage and incoming RPCs to handleIncomingRPC, which pushes every message that passed shouldPush and always hands the RPC to the router on the AcceptAll/AcceptControl arms; (R01.4) the hello packet and announce loops visit every topic / every peer. NOT decided: overlay convergence, mesh settling, gossip repair, exactly-once across the network (liveness over topologies and schedules).",
+		Explain: "Structural necessary conditions of C01 decided for all inputs and schedules: the local delivery fan-out wiring. (R01.1) publishMessage/publishMessageBatch reach notifySubs for every message and the router's Publish on every non-local path; (R01.2) notifySubs visits every subscription of the topic (no early exit) and attempts the channel send in each iteration not excluded by the subscription's own filter; (R01.3) processLoop dispatches sendMsg to publishMessage and incoming RPCs to handleIncomingRPC, which pushes every message that passed shouldPush and always hands the RPC to the router on the AcceptAll/AcceptControl arms; (R01.4) the hello packet and announce loops visit every topic / every peer. Also re-evaluated here as shared obligations, because network-wide delivery rests on them: interest announcements and hello packets (C05), recipient inclusion (C06 R06.6/R06.3/R06.1), outgoing size gates and field exhaustiveness (C11 R11.1-R11.3), gossip repair wiring (C17 B4/B6/B7/SCHED/WIRE). NOT decided: overlay convergence, mesh settling, that gossip actually repairs losses, exactly-once across the network (liveness over topologies and schedules).",
 		Assume:  []string{"go/cfg models control flow of the analysed functions faithfully", "router convergence and network delivery are outside the static claim"},
 		Mutants: []Mutant{
 			{Name: "notifySubs-return-on-slow-subscriber", File: "pubsub.go", Old: "\t\t\tp.tracer.UndeliverableMessage(msg)\n", New: "\t\t\tp.tracer.UndeliverableMessage(msg)\n\t\t\treturn\n", Expect: "R01.2"},
@@ -234,6 +234,29 @@ func runC01(c *RuleCtx) {
 			c.Check(ok, "R01.4", f.Name, "announcement pushed to every peer", r, why, why)
 		}
 	}
+	// C01 composes per-node necessary conditions decided under other properties; the ones a correct
+	// network-wide delivery directly rests on are re-evaluated here (shared obligations, same keys):
+	// interest announcements and hello packets (C05), recipient inclusion (C06 R06.6/R06.3), the size
+	// gates and field exhaustiveness of outgoing RPCs (C11), gossip repair wiring (C17 B4/B6/B7/SCHED/WIRE).
+	share := func(run func(*RuleCtx), keep func(o *Obligation) bool) {
+		sub := &RuleCtx{P: c.P, Prop: c.Prop, Min: map[string]int{}}
+		run(sub)
+		for _, o := range sub.Obs {
+			if keep(o) {
+				c.Obs = append(c.Obs, o)
+			}
+		}
+	}
+	share(runC05, func(o *Obligation) bool { return true })
+	share(runC06, func(o *Obligation) bool { return o.Rule == "R06.6" || o.Rule == "R06.3" || o.Rule == "R06.1" })
+	share(runC11, func(o *Obligation) bool { return o.Rule == "R11.3" || o.Rule == "R11.3-pre" || o.Rule == "R11.1" || o.Rule == "R11.2" })
+	share(runC17, func(o *Obligation) bool {
+		return inSet(o.Rule, "B4", "B6", "B7", "SCHED", "WIRE")
+	})
+	c.Min["R05.2"] = 18
+	c.Min["R06.6"] = 5
+	c.Min["R11.3"] = 4
+	c.Min["SCHED"] = 30
 	c.Min["R01.1"] = 3
 	c.Min["R01.2"] = 2
 	c.Min["R01.3"] = 8
